@@ -375,7 +375,9 @@ impl Rig for MpRig {
     fn runs(&self, tier: Tier) -> u64 {
         match tier {
             Tier::Quick => 400_000,
-            Tier::Thorough => 10_000_000,
+            // TestRequest::to_http_request leaks one request object per call (its private request
+            // pool and the request reference each other; test utility only): ~3.4 KB per run
+            Tier::Thorough => 5_000_000,
         }
     }
     fn gen(&self, rng: &mut Rng, idx: u64, _tier: Tier) -> MpScenario {
